@@ -1,4 +1,5 @@
 from algo_prop import make
+from common import fbits
 ALGOS = ['GPO', 'PCT', 'VPCT']
 budget, explore, search, replay = make("C09", ALGOS, quick_per_algo=12, thorough_per_algo=150, salt=900)
 RULE = ("the documented pull/receive loop on the real classes: algorithm x partition class (K 2..5) x dimension 1..3 x box shape x "
@@ -11,3 +12,53 @@ ASSUMPTIONS = ["theorems are about the Lean models of GPO, PCT, VPCT; they are t
                "object and cross-checked to 1e-9)",
                "score theorems hold for every linear order of scores and every formula record; IEEE rounding is not modelled"]
 TRUSTED = ["harness/algo_cases.py, harness/monitors.py, harness/common.py (instrumented partition subclasses, RNG patching)", "lean/PyXABModel/Drv (driver)"]
+
+# --- exhaustive enumeration of the (reward-independent) schedule constants: the real constructor's N and
+# half_phase_length against the published formula (math.*) and against the Lean driver's recomputation
+_explore = explore
+
+
+def schedule_sweep(tier):
+    import math
+    from framework import Case
+    from PyXAB.algos.GPO import GPO
+    from PyXAB.algos.HCT import HCT
+    from PyXAB.partition.BinaryPartition import BinaryPartition
+    c = Case("gpo-schedule-sweep", {"gen": "gpo-schedule", "kind": "binary", "ops": "sweep"})
+    ns = range(100, 1501) if tier == "quick" else range(100, 5001)
+    checked = skipped = 0
+    for rhomax in (0.5, 0.6, 0.75, 0.9):
+        for n in ns:
+            g = GPO(numax=1.0, rhomax=rhomax, rounds=n, domain=[[0.0, 1.0]], partition=BinaryPartition, algo=HCT)
+            Dmax = math.log(2) / math.log(1 / rhomax)
+            pre = 0.5 * Dmax * math.log((n / 2) / math.log(n / 2))
+            if abs(pre - round(pre)) < 1e-9:
+                skipped += 1
+                continue
+            N = math.ceil(pre)
+            half = math.floor(n / (2 * N))
+            checked += 1
+            if g.N != N or g.half_phase_length != half:
+                c.fail("C09", "schedule-constants", f"n={n} rho_max={rhomax}: N={g.N}, half={g.half_phase_length}; published formula gives {N}, {half}",
+                       algo="GPO", n=n, rhomax=rhomax)
+                if len(c.monitor) > 5:
+                    break
+            if n % 7 == 0 or g.N != N:
+                c.op(f"GPO.init HCT binary 0 1 {fbits(0.0)} {fbits(1.0)} {fbits(1.0)} {fbits(rhomax)} {n} {fbits(g.N)} {fbits(g.half_phase_length)}", "ok")
+    c.tags[f"schedule-sweep-checked={checked}"] += 1
+    c.tags[f"schedule-sweep-near-integer-skipped={skipped}"] += 1
+    c.meta["n_checked"] = checked
+    return c
+
+
+def explore(tier, seed, n):
+    import framework as fw
+    from common import fbits  # noqa
+    res = _explore(tier, seed, n)
+    sw = schedule_sweep(tier)
+    mism, n_ops = fw.compare([sw])
+    res["cases"] = [sw] + res["cases"]
+    res["mism"] = mism + res["mism"]
+    res["n_ops"] += n_ops
+    res.setdefault("extra", {})["schedule_constants_enumerated"] = sw.meta["n_checked"]
+    return res
